@@ -666,3 +666,122 @@ Proof.
   - exists b. repeat split; [left; reflexivity | exact E1].
   - destruct (IH _ _ Hn) as (b' & Hb & Hn' & Hf). exists b'. repeat split; [right; exact Hb | exact Hn' | exact Hf].
 Qed.
+
+(* ------------------------------------------------------------------------------------------------ *)
+(* errors raised through a bare cvm::error()                                                         *)
+(* ------------------------------------------------------------------------------------------------ *)
+
+Lemma accepted_cvs_map_ok : forall consult bs have n,
+  In n (accepted_cvs (map (to_block consult) bs) have) ->
+  exists b, In b bs /\ ib_name b = n /\ init_fails consult b = false.
+Proof.
+  intros consult bs have n Hn. destruct (accepted_cvs_ok _ _ _ Hn) as (b' & Hb & Hname & Hf).
+  apply in_map_iff in Hb. destruct Hb as (b & <- & Hb). exists b. repeat split; assumption.
+Qed.
+
+(* with the error state consulted, no object whose initialisation raised ANY error (returned or bare) is kept *)
+Lemma rollback_bare_errors : forall bs st n,
+  In n (accepted_cvs (map (to_block true) bs) (l_colvars st)) ->
+  exists b, In b bs /\ ib_name b = n /\ raises b = false.
+Proof.
+  intros bs st n Hn. destruct (accepted_cvs_map_ok true bs _ n Hn) as (b & Hb & Hname & Hf).
+  exists b. repeat split; assumption.
+Qed.
+
+Lemma rollback_bare_first : forall b r bt st, raises b = true ->
+  l_colvars (parse_config (map (to_block true) (b :: r)) bt st) = l_colvars st /\
+  l_biases (parse_config (map (to_block true) (b :: r)) bt st) = l_biases st.
+Proof.
+  intros b r bt st Hr. cbn [map].
+  destruct (rollback_first_colvar (to_block true b) (map (to_block true) r) bt st) as (H1 & H2 & _).
+  - unfold to_block, init_fails. cbn [k_fails andb]. exact Hr.
+  - split; assumption.
+Qed.
+
+(* without the consultation (parse_analysis returning only its own code) an object whose init raised a bare error stays *)
+Lemma rollback_noconsult_refuted :
+  exists b st, raises b = true /\
+    l_colvars (parse_colvars (map (to_block false) [b]) st) = l_colvars st ++ [ib_name b].
+Proof.
+  exists (mkIBlock "v0" "colvar" false true), (mkLists ["zz0"%string] [] false). split; reflexivity.
+Qed.
+
+(* ------------------------------------------------------------------------------------------------ *)
+(* vector-valued keywords                                                                           *)
+(* ------------------------------------------------------------------------------------------------ *)
+
+Lemma tok_value_val t q : parse_real (Some t) = QVal q -> tok_value t = Some q.
+Proof. intro E. unfold tok_value. rewrite E. reflexivity. Qed.
+
+Lemma read_all_ok : forall ts l, read_all ts = (l, false) -> map tok_value ts = map Some l.
+Proof.
+  induction ts as [|t r IH]; intros l H; cbn [read_all] in H.
+  - assert (l = []) by congruence. subst. reflexivity.
+  - destruct (parse_real (Some t)) as [|q|] eqn:E; try (exfalso; congruence).
+    destruct (read_all r) as [l' e'] eqn:Er. assert (l = q :: l' /\ e' = false) as [-> ->] by (split; congruence).
+    cbn [map]. rewrite (tok_value_val _ _ E). f_equal. apply IH. reflexivity.
+Qed.
+
+Lemma read_into_length : forall cur ts f l e, read_into cur ts f = (l, e) -> List.length l = List.length cur.
+Proof.
+  induction cur as [|c cr IH]; intros ts f l e H; cbn [read_into] in H.
+  - assert (l = []) by congruence. subst. reflexivity.
+  - destruct f.
+    + destruct (read_into cr ts true) as [l' e'] eqn:Er. assert (l = c :: l') by congruence. subst. cbn [List.length]. f_equal. eapply IH; exact Er.
+    + destruct ts as [|t tr].
+      * destruct (read_into cr [] true) as [l' e'] eqn:Er. assert (l = c :: l') by congruence. subst. cbn [List.length]. f_equal. eapply IH; exact Er.
+      * destruct (parse_real (Some t)) as [|q|] eqn:E.
+        -- destruct (read_into cr tr true) as [l' e'] eqn:Er. assert (l = c :: l') by congruence. subst. cbn [List.length]. f_equal. eapply IH; exact Er.
+        -- destruct (read_into cr tr false) as [l' e'] eqn:Er. assert (l = q :: l') by congruence. subst. cbn [List.length]. f_equal. eapply IH; exact Er.
+        -- destruct (read_into cr tr true) as [l' e'] eqn:Er. assert (l = c :: l') by congruence. subst. cbn [List.length]. f_equal. eapply IH; exact Er.
+Qed.
+
+Lemma read_into_failed : forall cur ts l e, read_into cur ts true = (l, e) -> e = true.
+Proof.
+  destruct cur as [|c cr]; intros ts l e H; cbn [read_into] in H.
+  - cbn in H. congruence.
+  - destruct (read_into cr ts true) as [l' e']. congruence.
+Qed.
+
+Lemma read_into_ok : forall cur ts l, read_into cur ts false = (l, false) ->
+  List.length ts = List.length cur /\ map tok_value ts = map Some l.
+Proof.
+  induction cur as [|c cr IH]; intros ts l H; cbn [read_into] in H.
+  - destruct ts as [|t tr]; cbn in H; [|discriminate H]. assert (l = []) by congruence. subst. split; reflexivity.
+  - destruct ts as [|t tr].
+    + destruct (read_into cr [] true) as [l' e']. discriminate H.
+    + destruct (parse_real (Some t)) as [|q|] eqn:E.
+      * destruct (read_into cr tr true) as [l' e']. discriminate H.
+      * destruct (read_into cr tr false) as [l' e'] eqn:Er. assert (l = q :: l' /\ e' = false) as [-> ->] by (split; congruence).
+        destruct (IH tr l' Er) as [Hl Hm]. split; [cbn [List.length]; f_equal; exact Hl|].
+        cbn [map]. rewrite (tok_value_val _ _ E). f_equal. exact Hm.
+      * destruct (read_into cr tr true) as [l' e']. discriminate H.
+Qed.
+
+(* an accepted per-variable list has exactly one valid value per variable, in order, each satisfying the element check *)
+Lemma vector_keyword_accept n presized elem_ok ts v :
+  vector_keyword n presized elem_ok (Some ts) = (v, false) ->
+  List.length ts = n /\ List.length v = n /\ map tok_value ts = map Some v /\ forallb elem_ok v = true.
+Proof.
+  unfold vector_keyword. destruct (getV (Some ts) (if presized then repeat (0 # 1) n else [])) as [v0 e0] eqn:Eg.
+  intro H. assert (v = v0) by congruence. subst v0.
+  assert (He : e0 || negb (Nat.eqb (List.length v) n) || negb (forallb elem_ok v) = false) by congruence.
+  apply orb_false_iff in He. destruct He as [He He3]. apply orb_false_iff in He. destruct He as [He1 He2].
+  apply negb_false_iff in He2, He3. apply Nat.eqb_eq in He2. subst e0.
+  assert (Hm : map tok_value ts = map Some v).
+  { unfold getV in Eg. destruct ts as [|t tr]; [discriminate Eg|].
+    destruct (if presized then repeat (0 # 1) n else []) as [|c cr] eqn:Ec.
+    - apply read_all_ok. exact Eg.
+    - apply (read_into_ok _ _ _ Eg). }
+  repeat split; try assumption.
+  rewrite <- (map_length tok_value ts), Hm, map_length. exact He2.
+Qed.
+
+(* the keyword given without any value, or absent for a list that was not pre-sized on n > 0 variables, is rejected *)
+Lemma vector_keyword_missing n elem_ok : (0 < n)%nat ->
+  snd (vector_keyword n false elem_ok None) = true /\ forall p, snd (vector_keyword n p elem_ok (Some [])) = true.
+Proof.
+  intro Hn. split.
+  - unfold vector_keyword, getV. cbn [snd List.length]. destruct n; [inversion Hn | reflexivity].
+  - intro p. unfold vector_keyword, getV. cbn [snd orb]. reflexivity.
+Qed.
